@@ -325,8 +325,12 @@ func decimalRef(s string, a []Value) Ref {
 	if n < 0 {
 		return valOrErr(Str(s))
 	}
-	if n > 1<<20 {
+	if n > 1<<26 {
 		return Ref{ErrOK: true}
+	}
+	if n > 1<<20 {
+		// a size limit may refuse it; a value, when one is returned, is the whole of it
+		return valOrErr(Str(s + sep + strings.Repeat("0", int(n))))
 	}
 	return val(Str(s + sep + strings.Repeat("0", int(n))))
 }
